@@ -1,6 +1,7 @@
 package main
 
 import (
+	"context"
 	"encoding/json"
 	"flag"
 	"fmt"
@@ -89,6 +90,8 @@ func main() {
 	switch os.Args[1] {
 	case "check":
 		os.Exit(cmdCheck(os.Args[2:]))
+	case "replay":
+		os.Exit(cmdReplay(os.Args[2:]))
 	case "parse":
 		// syntax check of a contract file
 		for _, f := range os.Args[2:] {
@@ -135,7 +138,7 @@ func cmdCheck(args []string) int {
 		fmt.Println("UNDECIDED property=" + *prop + " reason=unknown property")
 		return 2
 	}
-	eng := &Engine{fset: token.NewFileSet(), pkgs: map[string]*packages.Package{}, cfiles: map[string]*ContractFile{}, contracts: map[string]*Contract{}, ghosts: map[string]*GhostFn{}, lemmas: map[string]*Lemma{}, lemmaPkg: map[string]string{}, repo: *repo, contractHome: map[*Contract]string{}}
+	eng := &Engine{fset: token.NewFileSet(), pkgs: map[string]*packages.Package{}, cfiles: map[string]*ContractFile{}, contracts: map[string]*Contract{}, ghosts: map[string]*GhostFn{}, lemmas: map[string]*Lemma{}, lemmaPkg: map[string]string{}, repo: *repo, contractHome: map[*Contract]string{}, immutable: map[string]bool{}}
 	if err := eng.load(pc.Packages); err != nil {
 		fmt.Printf("UNDECIDED property=%s reason=%v\n", *prop, err)
 		return 2
@@ -370,4 +373,53 @@ func cmdCheck(args []string) int {
 	fmt.Printf("%s %s: %d obligations, %d discharged, %d refuted, %d regressed, %d unproved, %d known; %d functions; vacuity probes %d sat/%d inconclusive/%d vacuous; load %.1fs gen %.1fs solve %.1fs\n",
 		*prop, *tier, len(obls)-rep.VacuityProbes, len(rep.Discharged), len(rep.Refuted), len(rep.Regressed), len(rep.Unproved), len(rep.Known), len(results), rep.VacuityOK, rep.VacuityInconclusive, len(rep.VacuityFailed), loadS, genS, solveS)
 	return exit
+}
+
+// cmdReplay re-runs a recorded failure: the saved SMT query on all solvers, and the Go replay
+// driver (if the function has one) against the current /repo.
+func cmdReplay(args []string) int {
+	fs := flag.NewFlagSet("replay", flag.ExitOnError)
+	repo := fs.String("repo", "/repo", "repository root")
+	verif := fs.String("verif", "/verif", "verification root")
+	fs.Parse(args)
+	if fs.NArg() != 1 {
+		fmt.Fprintln(os.Stderr, "usage: govc replay <replay.json>")
+		return 2
+	}
+	data, err := os.ReadFile(fs.Arg(0))
+	if err != nil {
+		fmt.Println(err)
+		return 2
+	}
+	var rp struct {
+		Property   string            `json:"property_id"`
+		Obligation string            `json:"obligation"`
+		Function   string            `json:"function"`
+		SMT        string            `json:"smt_file"`
+		Model      map[string]string `json:"model_inputs"`
+		PkgDir     string            `json:"pkg_dir"`
+	}
+	if err := json.Unmarshal(data, &rp); err != nil {
+		fmt.Println(err)
+		return 2
+	}
+	fmt.Printf("obligation %s (property %s)\n", rp.Obligation, rp.Property)
+	if rp.SMT != "" {
+		for _, sp := range solvers {
+			f := rp.SMT
+			if sp.cvc5 {
+				continue
+			}
+			st, _, d := runSolver(context.Background(), sp, f, 30)
+			fmt.Printf("  %s: %s (%.1fs)\n", sp.name, st, d)
+		}
+	}
+	o := &Obl{Name: rp.Obligation, Unit: rp.Function, Model: rp.Model, PkgDir: rp.PkgDir, Status: "sat"}
+	rep := &Report{Prop: rp.Property, Verif: *verif, Repo: *repo}
+	if runReplayDriver(rep, o, fs.Arg(0)) {
+		fmt.Println("REPRODUCED on the real code (see replay_output in the file)")
+		return 1
+	}
+	fmt.Println("not reproduced on the current code (or no driver for this function)")
+	return 0
 }
